@@ -1,4 +1,106 @@
-(* C04/Props.v -- pinned property theorems *)
+(* C04/Props.v -- pinned property theorems; nothing but statements closed by `exact`.
+   `norm` is Run.norm = gen_float_key_normalises_zero, regenerated from Value::hash_key on every run:
+   the statements below type-check against the lemmas (proved for a key that normalises the sign of
+   zero) only while the regenerated flag is `true`. *)
 From NV.Common Require Import Base.
-From NV.C04 Require Import Types Model Proofs Inst.
+From NV.C04 Require Import Types Model Proofs Run Inst.
+From NV.gen Require Import Gen_C04.
 Open Scope N_scope.
+
+Definition gstep (st : state) (o : op) : state :=
+  match o with
+  | OInsert vals => fst (insert norm st vals)
+  | OUpdate c sets => fst (update norm st c sets)
+  | ODelete c => fst (delete norm st c)
+  | ODdl kind col => fst (ddl norm st kind col)
+  end.
+Definition grun (s : schema) (ops : list op) : state := fold_left gstep ops (init s).
+
+(* Every execution strategy, on every state reachable by any sequence of inserts / updates / deletes /
+   index creations / drops over any schema, returns exactly the rows satisfying the condition
+   (`scan` = filter (evaluate c) over the live rows): scan or hash index or ordered index with
+   re-check (select), the vectorised path with fallback (select_columnar = the text path),
+   limit/offset, cursor, count, min, max. *)
+Theorem C04_every_strategy_exact :
+  forall s ops c lim off col,
+  (length s <= 1000)%nat -> Forall op_ok ops -> valid_cond c ->
+  let st := grun s ops in
+  let exact := filter (evaluate c) (live (tbl st)) in
+  select norm st c = exact /\
+  select_columnar norm st c = exact /\
+  select_with_limit norm st c lim off = firstn (N.to_nat lim) (skipn (N.to_nat off) exact) /\
+  select_iter norm st c lim off = (if lim =? 0 then skipn (N.to_nat off) exact
+                                   else firstn (N.to_nat lim) (skipn (N.to_nat off) exact)) /\
+  count norm st c = N.of_nat (length exact) /\
+  agg_min norm st c col = agg_best Lt col exact /\
+  agg_max norm st c col = agg_best Gt col exact.
+Proof. exact strategies_exact. Qed.
+Example C04_every_strategy_nonvacuous :
+  let ops := [OInsert [VFloat 9223372036854775808; VNull]; ODdl 0 0; ODdl 1 1; OInsert [VFloat 0; VInt 3];
+              OUpdate (CCmp 0 0 (VFloat 0)) [(1, VInt 7)]; ODelete (CCmp 2 1 (VInt 0))] in
+  Forall op_ok ops /\ length (select norm (grun [(1, false); (0, true)] ops) (CCmp 0 0 (VFloat 0))) = 2%nat.
+Proof.
+  split; [|vm_compute; reflexivity].
+  repeat constructor; cbn; try exact I; try (vm_compute; reflexivity); intros []; try discriminate; auto.
+Qed.
+
+(* Index completeness: on every reachable state every hash / ordered index holds exactly the live
+   rows, each filed once under (a key equivalent to) its current key. *)
+Theorem C04_index_invariant :
+  forall s ops, (length s <= 1000)%nat -> Forall op_ok ops ->
+  let st := grun s ops in
+  Forall (fun ce => ix_inv hkeq (hash_key norm) (tbl st) (fst ce) (snd ce)) (hidx st) /\
+  Forall (fun ce => ix_inv okeq (fun v => v) (tbl st) (fst ce) (snd ce)) (bidx st).
+Proof. exact (fun s ops Hs Hok => proj1 (good_run s ops Hs Hok)). Qed.
+
+(* Candidate-then-recheck is exact for ANY duplicate-free candidate list covering the satisfying rows. *)
+Theorem C04_recheck_exact :
+  forall t c cands, NoDup cands ->
+  (forall r, In r (live t) -> evaluate c r = true -> In (fst r) cands) ->
+  sort_rows (filter (evaluate c) (fetch t cands)) = filter (evaluate c) (live t).
+Proof. exact recheck_exact. Qed.
+
+(* ... and the hash key supplies such candidates because it respects ==; with raw float bits it
+   does not (F-C04-negzero, fixed in 4bad7dae). *)
+Theorem C04_hash_key_respects_eq :
+  forall x v, valid_value x -> valid_value v -> veq x v = true -> hash_key norm x = hash_key norm v.
+Proof. exact hash_key_respects_veq. Qed.
+Theorem C04_hash_key_raw_bits_refuted :
+  exists x v, valid_value x /\ valid_value v /\ veq x v = true /\ hash_key false x <> hash_key false v.
+Proof. exact hash_key_raw_bits_refuted. Qed.
+
+(* The vectorised path (kernel AND alive AND NOT null; Ne keeps NULLs; And/Or = intersect/union)
+   on any well-typed table selects exactly the satisfying rows whenever it applies. *)
+Theorem C04_vectorised_exact :
+  forall s t c bits, (length s <= 1000)%nat -> wt_table s t -> vfilter s t c = Some bits ->
+  pick_from 0 t bits = filter (evaluate c) (live t).
+Proof. exact vectorised_exact. Qed.
+Example C04_vectorised_nonvacuous :
+  let t := [Slot true [VNull]; Slot true [VInt 3]; Slot false [VInt 1]; Slot true [VInt 9]] in
+  vfilter [(0, true)] t (COr (CCmp 2 0 (VInt 5)) (CCmp 1 0 (VInt 9))) = Some [true; true; false; false] /\
+  wt_table [(0, true)] t.
+Proof.
+  split; [vm_compute; reflexivity|].
+  repeat constructor; cbn; intros [|[|i]] ty nl H; cbn in H; try discriminate; injection H as <- <-; reflexivity.
+Qed.
+
+(* update and delete touch exactly the rows satisfying the condition *)
+Theorem C04_update_exact :
+  forall st c sets st' n, update norm st c sets = (st', Some n) ->
+  live (tbl st') = map (fun r => if evaluate c r then (fst r, apply_sets (snd r) sets) else r) (live (tbl st)) /\
+  n = N.of_nat (length (filter (evaluate c) (live (tbl st)))).
+Proof. exact update_exact. Qed.
+Theorem C04_delete_exact :
+  forall st c st' n, delete norm st c = (st', Some n) ->
+  live (tbl st') = filter (fun r => negb (evaluate c r)) (live (tbl st)) /\
+  n = N.of_nat (length (filter (evaluate c) (live (tbl st)))).
+Proof. exact delete_exact. Qed.
+
+Print Assumptions C04_every_strategy_exact.
+Print Assumptions C04_index_invariant.
+Print Assumptions C04_recheck_exact.
+Print Assumptions C04_hash_key_respects_eq.
+Print Assumptions C04_hash_key_raw_bits_refuted.
+Print Assumptions C04_vectorised_exact.
+Print Assumptions C04_update_exact.
+Print Assumptions C04_delete_exact.
